@@ -316,3 +316,36 @@ def line_field(line, name):
         if tok.startswith(name + '='):
             return tok[len(name) + 1:]
     return None
+
+
+
+def against_lean_spec(impl_out, head, cfg_head='lcfg', undetermined=()):
+    """the results of the REAL code against an executable Lean specification: every `lop` (or `op`)
+    line is re-sent with the head `head` (same fields), the configuration line with `cfg_head`;
+    methods in `undetermined` are executed on the specification but their results not compared.
+    -> (number of results compared, [disagreement])"""
+    import corr
+    lines, index = [], []
+    for i, io in enumerate(impl_out):
+        for j, (line, ans) in enumerate(io):
+            if line.startswith('lcfg ') or line.startswith('cfg '):
+                lines.append(cfg_head + ' ' + line.split(' ', 1)[1])
+                index.append(None)
+            elif line.startswith('lop ') or line.startswith('op '):
+                lines.append(head + ' ' + line.split(' ', 1)[1])
+                index.append((i, j))
+    got = corr.run_driver(lines)
+    out, compared, seen = [], 0, set()
+    for ij, l, g in zip(index, lines, got):
+        if ij is None or ij[0] in seen:
+            continue
+        i, j = ij
+        if line_field(l, 'm') in undetermined:
+            continue
+        want = impl_out[i][j][1].split(' | ')[0]
+        compared += 1
+        if g != want:
+            seen.add(i)
+            nth = sum(1 for (l2, _) in impl_out[i][:j] if l2.startswith('lop ') or l2.startswith('op '))
+            out.append({'history': i, 'op_index': nth, 'line': l, 'impl': want, 'spec': g})
+    return compared, out
